@@ -93,11 +93,12 @@ def collinear_strategy(draw, tier):
         pos = [_m.copysign(_m.ceil(abs(p) * 64) / 64, p) for p in pos]
     else:
         far = None
-    return {"far": far, "pos": [p * unit for p in pos], "r": [r * unit for r in rad], "parents": par, "axis": axis, "c": c, "level": lv,
+    return {"session": draw(st.sampled_from([None, None, "same-source-measured-before", "failed-measurement-before", "both"])),
+            "far": far, "pos": [p * unit for p in pos], "r": [r * unit for r in rad], "parents": par, "axis": axis, "c": c, "level": lv,
             "two": two, "feature": draw(st.integers(0, 5)) == 0 and not two, "unit": unit}
 
 
-def _build(case):
+def _build(case, source=""):
     from swcgeom.core import Tree
 
     u = np.asarray(case["axis"], dtype=np.float64)
@@ -107,15 +108,34 @@ def _build(case):
     n = len(case["pos"])
     t = Tree(n, id=np.arange(n, dtype=np.int32), pid=np.array(case["parents"], dtype=np.int32),
              type=np.array([1] + [3] * (n - 1), dtype=np.int32), x=xyz[:, 0], y=xyz[:, 1], z=xyz[:, 2],
-             r=np.array(case["r"], dtype=np.float32))
+             r=np.array(case["r"], dtype=np.float32), source=source)
     return t, xyz.astype(np.float64), u
 
 
 def run_collinear(case, ctx):
     from swcgeom.analysis import get_volume
 
-    tree, xyz, u = _build(case)
+    session = case.get("session")
+    src = "/data/cells/neuron-17.swc" if session in ("same-source-measured-before", "both") else ""
+    tree, xyz, u = _build(case, src)
     n = len(xyz)
+    if src:
+        # another neuron with the same `source` and the same number of nodes (the file was rewritten, or the tree was
+        # derived from it) has just been measured at every level
+        other, _, _ = _build(dict(case, r=[v * 0.5 + 0.125 * case.get("unit", 1.0) for v in case["r"]]), src)
+        for lvl in sorted({1, 2, 3, case["level"]}) + ["low"]:
+            ctx.lib("get_volume[another tree of the same source]", get_volume, other, accuracy=lvl)
+        ctx.cls("another-tree-of-the-same-source-measured-before")
+    if session in ("failed-measurement-before", "both"):
+        # a measurement that fails part-way (a node without coordinates), caught by the caller
+        broken, _, _ = _build(case, src)
+        broken.ndata["x"][1 if n > 2 else n - 1] = np.nan  # next to the root: the far nodes are summed before the failure
+        for lvl in (case["level"], 3):
+            try:
+                get_volume(broken, accuracy=lvl)
+            except Exception:  # noqa
+                pass
+        ctx.cls("measured-after-a-failed-measurement")
     # axis positions and radii exactly as the library sees them (float32 inputs)
     X = [float((xyz[i] - xyz[0]) @ u) for i in range(n)]
     R = [float(np.float32(r)) for r in case["r"]]
@@ -250,7 +270,8 @@ def run_levels12(case, ctx):
 
 SUBCHECKS = [
     Sub("collinear", collinear_strategy, run_collinear, quick=700, thorough=8000, shards_quick=8,
-        required={"chain": 200, "far-from-the-origin": 100, "two-arm": 80, "overlapping-neighbours": 200, "all-apart": 20, "mc-term": 5,
+        required={"chain": 200, "far-from-the-origin": 100, "another-tree-of-the-same-source-measured-before": 150,
+                  "measured-after-a-failed-measurement": 150, "two-arm": 80, "overlapping-neighbours": 200, "all-apart": 20, "mc-term": 5,
                   "level:3": 30, "level:9": 10, "via-extract_feature": 20, "unit:0.001": 40, "unit:100.0": 40}),
     Sub("levels12", levels12_strategy, run_levels12, quick=800, thorough=10000, shards_quick=2,
         required={"furcations>=2": 100, "single-node": 5, "zero-radius-node-with-children": 40,
